@@ -10,7 +10,7 @@ from ..axes import declared_axes, reversal_position
 from . import common
 from .. import alg as _alg
 from ..alg import sym as _sym
-from ..interp import Interp as _Interp, Hooks as _Hooks, Obj as _Obj, symarr as _symarr, unit_atom as _unit_atom, scalar as _scalar
+from ..interp import Interp as _Interp, Hooks as _Hooks, Obj as _Obj, symarr as _symarr, unit_atom as _unit_atom, scalar as _scalar, Unk as _Unk
 from ..fitmodel import compare as _compare, loc as _loc
 
 EXPLANATION = (
@@ -203,6 +203,8 @@ def check_get_sed(ctx):
                  vocab=vocab, fns=fns, findings=I2.findings, detail_ok='extracted as before')
         e2 = out2.attrs.get('_error', out2.attrs.get('error'))
         ctx.expect(e2 is None, 'AXIS', 'get_sed error (cube without uncertainties)', where_, 'absent uncertainties give an SED without errors', 'error is %r' % (e2,), 'get-sed-no-unc')
+    elif isinstance(out2, _Unk) and ('always raises' in out2.why or getattr(I2, 'uncaught', None)):
+        ctx.violation('AXIS', 'get_sed (cube without uncertainties)', where_, 'extracting an SED from a cube that holds no uncertainties raises (%s)' % (getattr(I2, 'uncaught', None) or out2.why)[:120], 'get-sed-raises')
     else:
         _compare(ctx, 'AXIS', 'get_sed (cube without uncertainties)', where_, out2, _alg.Poly(), findings=I2.findings)
 
